@@ -1,0 +1,42 @@
+//! Verification hooks, only compiled with `--cfg noodles_verif`.
+//!
+//! The async BGZF reader and writer hand block (de)compression to `tokio::task::spawn_blocking`.
+//! Under the deterministic simulator the completion order of those jobs must be a simulator
+//! decision: when a gate factory is installed on the current thread, a job is instead spawned as
+//! an ordinary task on the same (current-thread) runtime that first awaits a gate future. Without
+//! a gate the real `spawn_blocking` is used.
+
+use std::{cell::RefCell, future::Future, pin::Pin};
+
+/// A gate future factory.
+pub type Gate = Box<dyn Fn() -> Pin<Box<dyn Future<Output = ()> + Send>>>;
+
+thread_local! {
+    static GATE: RefCell<Option<Gate>> = const { RefCell::new(None) };
+}
+
+/// Sets the gate factory for the current thread.
+pub fn set_gate(gate: Option<Gate>) {
+    GATE.with(|g| *g.borrow_mut() = gate);
+}
+
+#[doc(hidden)]
+pub mod tokio {
+    pub mod task {
+        pub fn spawn_blocking<F, R>(f: F) -> ::tokio::task::JoinHandle<R>
+        where
+            F: FnOnce() -> R + Send + 'static,
+            R: Send + 'static,
+        {
+            let gate = super::super::GATE.with(|g| g.borrow().as_ref().map(|g| g()));
+
+            match gate {
+                Some(gate) => ::tokio::task::spawn(async move {
+                    gate.await;
+                    f()
+                }),
+                None => ::tokio::task::spawn_blocking(f),
+            }
+        }
+    }
+}
